@@ -8,7 +8,7 @@
 //! union histories.  After every round:
 //! Also 100 (deep: 2000) union histories: 6 terms (some are slot-permuted copies of earlier ones, or two such copies under
 //! one node), 8 unions between them, observed after every union.
-//!  `ematch_all` / `multi_ematch` (C05): 16 patterns and 9 multi-patterns; every returned substitution binds every
+//!  `ematch_all` / `multi_ematch` (C05): 16 patterns and 12 multi-patterns; every returned substitution binds every
 //!    pattern variable, the instantiated pattern is found by `lookup` alone (nothing inserted), every multi-pattern
 //!    equation holds between the bound classes, and matching leaves node count / classes / slots untouched;
 //!  `EGraph::add_expr` (C09): re-inserting every kept term, and the same term with its free slots renamed, creates
@@ -177,7 +177,11 @@ fn multi_pats() -> Vec<&'static str> {
     vec!["?x == (mul ?a ?b), ?b == zero", "?o == (add ?a ?b), ?b == (sub ?a ?a)", "?o == (f3 ?a ?b ?c), ?a == (var $1)", "?o == (app ?f ?t), ?f == (lam $1 ?b)",
          // two different pattern slots: they must not be identified with each other
          "?o == (sub ?a ?b), ?a == (var $1), ?b == (var $2)", "?o == (add ?a ?b), ?b == (var $2), ?a == (var $1)", "?o == (lam $1 ?b), ?b == (var $2)",
-         "?o == (mul ?a ?b), ?a == (var $1), ?b == (mul ?c ?d), ?c == (var $2)", "?o == (lam $1 ?b), ?b == (app ?f ?x), ?f == (var $1), ?x == (var $2)"]
+         "?o == (mul ?a ?b), ?a == (var $1), ?b == (mul ?c ?d), ?c == (var $2)", "?o == (lam $1 ?b), ?b == (app ?f ?x), ?f == (var $1), ?x == (var $2)",
+         // a node with THREE children, two of them bound by earlier equations, all over one shared slot: the slot unifications made
+         // while its children are visited form a chain (y1 -> y2 -> y3) that the third child has to follow to its end (seed C05-g)
+         "?p == (add ?a ?z), ?q == (mul ?b ?y), ?r == (f3 ?a ?b ?c)", "?p == (add ?a ?z), ?b == (g ?v), ?v == (var $9), ?r == (f3 ?a ?b ?c)",
+         "?p == (add ?a ?z), ?q == (mul ?b ?y), ?s == (sub ?c ?w), ?r == (f4 ?a ?b ?c ?d)"]
 }
 
 struct Hist { eg: EG, subs: Vec<RecExpr<KL>>, handles: Vec<AppliedId>, equal_pairs: Vec<(usize, usize)>, slot_counts: Vec<usize>, prog: ProgressMeasure }
@@ -311,6 +315,8 @@ fn start(terms: &[RecExpr<KL>]) -> Hist {
 fn hand_written() -> Vec<(Vec<&'static str>, Vec<(usize, usize)>)> {
     vec![
         (vec!["(mul (var $1) (var $2))", "(mul (var $2) (var $1))", "(mul (var $1) (var $3))"], vec![(0, 1), (0, 2)]),
+        // one slot shared by the three (four) children of one node, each child also reachable through a node of its own (seed C05-g)
+        (vec!["(add (var $1) zero)", "(mul (g (var $1)) zero)", "(f3 (var $1) (g (var $1)) (g (g (var $1))))", "(sub (g (g (var $1))) one)", "(f4 (var $1) (g (var $1)) (g (g (var $1))) (g (g (g (var $1)))))"], vec![]),
         (vec!["(f3 (var $1) (var $2) (var $3))", "(f3 (var $2) (var $3) (var $1))"], vec![(0, 1)]),
         (vec!["(sub (var $1) (var $1))", "(g (g zero))", "(add (sub (var $2) (var $2)) one)"], vec![(0, 1)]),
         (vec!["(lam $1 (mul (var $1) (var $2)))", "(lam $1 (mul (var $1) (var $3)))"], vec![(0, 1)]),
@@ -361,6 +367,8 @@ pub fn run(only: &[String]) -> Vec<String> {
             let mut h = start(&terms);
             // the handles of the top-level terms are the last handle of each term's subterm block
             let mut tops = Vec::new(); { let mut k = 0; for t in &terms { let mut v = Vec::new(); subterms(t, &mut v); k += v.len(); tops.push(k - 1); } }
+            // a history without unions is observed once, as inserted
+            if unions.is_empty() { if let Err(e) = observe(what, &mut h, &desc) { report(e, &mut fails); } }
             for (a, b) in &unions {
                 let (x, y) = (h.handles[tops[*a]].clone(), h.handles[tops[*b]].clone());
                 h.eg.union(&x, &y);
